@@ -42,8 +42,14 @@ import (
 )
 
 type msess struct {
-	Data         map[string]string
-	Idle         int // dead after this harness second; unspecified exactly at it
+	Data map[string]string
+	Idle int // dead after this harness second; unspecified exactly at it
+	// Custom != 0: a request set this session's own idle timeout (Session.SetIdleTimeout, seconds).
+	// The save of that request uses it (documented). Whether later saves by later requests keep it
+	// or go back to Config.IdleTimeout is not said: IdleAlt != 0 is then the other candidate
+	// deadline, the session is live before the earlier and dead after the later of the two.
+	Custom       int
+	IdleAlt      int
 	HasAbs       bool
 	AbsLo, AbsHi int    // must be live before AbsLo, must be dead after AbsHi
 	Origin       string // create | reset, "+regenerate" appended: where the absolute lifetime comes from
@@ -69,14 +75,40 @@ const (
 )
 
 // statusOf is pure: the status of a stored session at time t.
+func (s *msess) idleWindow() (lo, hi int) {
+	lo, hi = s.Idle, s.Idle
+	if s.IdleAlt != 0 && s.IdleAlt < lo {
+		lo = s.IdleAlt
+	}
+	if s.IdleAlt > hi {
+		hi = s.IdleAlt
+	}
+	return lo, hi
+}
+
+// savedAt sets the idle deadline of a save at time t; pending = the value this request handed to
+// SetIdleTimeout before the save (0: none).
+func (s *msess) savedAt(t, pending int) {
+	s.IdleAlt = 0
+	switch {
+	case pending != 0:
+		s.Custom, s.Idle = pending, t+pending
+	case s.Custom != 0 && s.Custom != IdleS:
+		s.Idle, s.IdleAlt = t+IdleS, t+s.Custom
+	default:
+		s.Idle = t + IdleS
+	}
+}
+
 func statusOf(s *msess, t int) (int, string) {
-	if t > s.Idle {
+	lo, hi := s.idleWindow()
+	if t > hi {
 		return stDead, "idle-timeout"
 	}
 	if s.HasAbs && t > s.AbsHi {
 		return stDead, "absolute-timeout(" + s.Origin + ")"
 	}
-	if t == s.Idle {
+	if t >= lo {
 		return stUnspec, "idle-timeout"
 	}
 	if s.HasAbs && t >= s.AbsLo {
@@ -192,6 +224,11 @@ func (w *world) judge(op Op, o *obsT, info *stepInfo) *viol {
 	var v *viol
 	if op.Kind == kAdmin {
 		v = w.judgeAdmin(op, o, info)
+		// the administrator's request has no session of its own: store.Delete / Reset and sessions
+		// obtained by GetByID are not bound to the request ("does not ... update the client cookie")
+		if v == nil && o.Emit.Present {
+			v = vio("admin-response-carries-session-id src="+w.cfg.Source, "the response to a request that only used GetByID / store.Delete names or expires a session id", o.Emit, "no session cookie / header")
+		}
 	} else {
 		v = w.judgeSession(op, o, info)
 	}
@@ -248,6 +285,7 @@ func (w *world) judgeSession(op Op, o *obsT, info *stepInfo) *viol {
 		hasAbs       bool
 		absLo, absHi int
 		origin       string
+		custom       int // the session's own idle timeout of an earlier request, 0: none
 	}
 	var cur curT
 	if resumed {
@@ -258,7 +296,7 @@ func (w *world) judgeSession(op Op, o *obsT, info *stepInfo) *viol {
 		if pre.Fresh {
 			info.Unspec++ // Fresh() on a resumed session: the statement is silent
 		}
-		cur = curT{p, copyData(s.Data), s.HasAbs, s.AbsLo, s.AbsHi, s.Origin}
+		cur = curT{p, copyData(s.Data), s.HasAbs, s.AbsLo, s.AbsHi, s.Origin, s.Custom}
 	} else {
 		if !contains(o.Gen, pre.ID) {
 			what := "the new session's id was not produced by the KeyGenerator during this request"
@@ -320,8 +358,14 @@ func (w *world) judgeSession(op Op, o *obsT, info *stepInfo) *viol {
 		}
 		return nil
 	}
+	pendingIdle := 0 // seconds handed to SetIdleTimeout in this request
 	switch op.Act {
 	case "get", "touch":
+	case "idle":
+		pendingIdle = op.Idle
+		if op.K != "" {
+			cur.data[op.K] = op.V
+		}
 	case "set", "setns":
 		cur.data[op.K] = op.V
 	case "del":
@@ -357,7 +401,9 @@ func (w *world) judgeSession(op Op, o *obsT, info *stepInfo) *viol {
 	}
 	persist := func() {
 		delete(m.dead, cur.id)
-		m.live[cur.id] = &msess{Data: copyData(cur.data), Idle: t + IdleS, HasAbs: cur.hasAbs, AbsLo: cur.absLo, AbsHi: cur.absHi, Origin: cur.origin}
+		ns := &msess{Data: copyData(cur.data), Custom: cur.custom, HasAbs: cur.hasAbs, AbsLo: cur.absLo, AbsHi: cur.absHi, Origin: cur.origin}
+		ns.savedAt(t, pendingIdle)
+		m.live[cur.id] = ns
 	}
 	saved := !destroyed && (op.API == "mw" || (op.Act != "get" && op.Act != "setns"))
 	resaved := false // a store-API Save followed Destroy in the same request
@@ -367,10 +413,78 @@ func (w *world) judgeSession(op Op, o *obsT, info *stepInfo) *viol {
 			return vio("compound-request-incomplete "+tag, "the handler did not get through its calls", len(o.Mid), len(op.Seq))
 		}
 		info.Outcome += " seq=" + seqClass(op.Seq)
-		var own []string    // ids the session object carried from the first Destroy on
-		savedCur := false   // store API: the session was saved under its current id and not ended since
+		var own []string  // ids the session object carried from the first Destroy on
+		savedCur := false // store API: the session was saved under its current id and not ended since
+		ended := false    // Destroy / Regenerate / Reset was called earlier in this request
+		// Save after Destroy is unspecified: the model follows the implementation, for the ids of
+		// that object only
+		adopt := func() {
+			actual, _ := w.contents()
+			for _, id := range own {
+				a := actual[id]
+				if a == nil || a.Bad != "" {
+					continue
+				}
+				info.Unspec++
+				idle := t + IdleS
+				if a.Exp != 0 {
+					idle = a.Exp
+				}
+				delete(m.dead, id)
+				m.live[id] = &msess{Data: copyData(a.Data), Idle: idle, HasAbs: a.HasAbs, AbsLo: a.Abs, AbsHi: a.Abs, Origin: "saved-after-destroy"}
+			}
+		}
 		for i, a := range op.Seq {
 			after := o.Mid[i]
+			if a.Name == "reget" {
+				// The handler released its session and called store.Get again in this request. It must
+				// get the live session of the id the request presented, with exactly the data last
+				// saved (this request's saves included), if nothing ended it in between. Otherwise -
+				// new session, or Destroy / Regenerate / Reset earlier in the request - the statement
+				// does not say which id the second call continues with: either a live session this
+				// request is entitled to (the presented id or an id generated during this request) with
+				// exactly its saved data, or an empty fresh session under an id generated now. Never
+				// anything else.
+				if destroyed && resaved {
+					adopt()
+					resaved = false
+				}
+				info.Outcome += " second-get"
+				s2, isLive := m.live[after.ID]
+				if isLive {
+					if st, _ := statusOf(s2, t); st == stDead {
+						isLive = false
+					}
+				}
+				entitled := after.ID == p || contains(o.Gen, after.ID)
+				switch {
+				case !ended && resumed && after.ID != p:
+					return vio("live-session-lost "+tag+" second-get", "a second store.Get in the same request did not return the live session the request presents", after, map[string]any{"id": p, "data": m.live[p].Data})
+				case isLive && entitled:
+					if k := diffKind(after.Data, s2.Data); k != "" {
+						return vio("data-mismatch kind="+k+" "+tag+" second-get", "a second store.Get in the same request does not see exactly the data last saved under the id", after.Data, s2.Data)
+					}
+					cur = curT{after.ID, copyData(s2.Data), s2.HasAbs, s2.AbsLo, s2.AbsHi, s2.Origin, s2.Custom}
+				case !isLive && contains(o.Gen, after.ID):
+					if len(after.Data) > 0 {
+						return vio("fresh-session-not-empty "+tag+" second-get", "the new session of a second store.Get already contains data", after, "empty data")
+					}
+					if !after.Fresh {
+						return vio("new-session-not-fresh "+tag+" second-get", "the new session of a second store.Get reports Fresh()==false", after, "Fresh()==true")
+					}
+					cur = curT{id: after.ID, data: map[string]string{}, origin: "create"}
+					if m.cfg.Abs {
+						cur.hasAbs, cur.absLo, cur.absHi = true, t+AbsS, t+AbsS
+					}
+				default:
+					return vio("second-get-foreign-id "+tag, "a second store.Get in the same request returned a session under an id that is neither the live session the request presented nor an id generated during this request", after, map[string]any{"presented": p, "generated": o.Gen})
+				}
+				if ended || !resumed {
+					info.Unspec++
+				}
+				destroyed, savedCur = false, false
+				continue
+			}
 			if destroyed && (a.Name == "get" || a.Name == "set" || a.Name == "del") {
 				info.Unspec++ // reads and writes on a destroyed session object: unspecified, must stay private
 				continue
@@ -392,9 +506,10 @@ func (w *world) judgeSession(op Op, o *obsT, info *stepInfo) *viol {
 				}
 			case "destroy":
 				m.kill(cur.id, "destroy")
-				destroyed, savedCur = true, false
+				destroyed, savedCur, ended = true, false, true
 				own = append(own, cur.id)
 			case "regen", "reset":
+				ended = true
 				kind := "regenerate"
 				if a.Name == "reset" {
 					kind = "reset"
@@ -415,21 +530,7 @@ func (w *world) judgeSession(op Op, o *obsT, info *stepInfo) *viol {
 		case destroyed:
 			saved = false
 			if resaved {
-				// unspecified: the model follows the implementation, for the ids of this object only
-				actual, _ := w.contents()
-				for _, id := range own {
-					a := actual[id]
-					if a == nil || a.Bad != "" {
-						continue
-					}
-					info.Unspec++
-					idle := t + IdleS
-					if a.Exp != 0 {
-						idle = a.Exp
-					}
-					delete(m.dead, id)
-					m.live[id] = &msess{Data: copyData(a.Data), Idle: idle, HasAbs: a.HasAbs, AbsLo: a.Abs, AbsHi: a.Abs, Origin: "saved-after-destroy"}
-				}
+				adopt()
 			}
 		case op.API == "mw":
 			saved = true
@@ -529,13 +630,71 @@ func (w *world) judgeAdmin(op Op, o *obsT, info *stepInfo) *viol {
 	if k := diffKind(o.Pre.Data, s.Data); k != "" {
 		return vio("data-mismatch kind="+k+" api=getbyid", "GetByID does not return exactly the data last saved under the id", o.Pre.Data, s.Data)
 	}
-	if op.Act == "getbyidset" {
-		if o.Err != "" {
-			return vio("op-error api=adm act=getbyidset", "Save returned an error", o.Err, "no error")
+	if op.Act == "getbyid" {
+		return nil
+	}
+	// operations on the session GetByID returned (it has no request context; Save persists)
+	if o.Err != "" {
+		return vio("op-error api=adm act="+op.Act, "an operation on a session obtained by GetByID returned an error", o.Err, "no error")
+	}
+	if o.Post == nil {
+		return vio("no-session api=getbyid", "the session was not readable after the operation", o, "a session")
+	}
+	exp := copyData(s.Data)
+	rotated := func(kind string) *viol {
+		id := o.Post.ID
+		m.kill(target, kind)
+		if id == target {
+			return vio("kept-id-after-"+kind+" api=getbyid", "the session keeps its previous id", id, "a newly generated id")
 		}
-		s.Data = copyData(s.Data)
-		s.Data[op.K] = op.V
-		s.Idle = t + IdleS
+		if !contains(o.Gen, id) {
+			return vio("id-not-generated-after-"+kind+" api=getbyid", "the session's new id was not produced by the KeyGenerator during this request", map[string]any{"id": id, "generated": o.Gen}, "id generated now")
+		}
+		ns := &msess{Data: exp, Custom: s.Custom, HasAbs: s.HasAbs, AbsLo: s.AbsLo, AbsHi: s.AbsHi, Origin: s.Origin}
+		if kind == "reset" {
+			ns.Origin = "reset"
+			if m.cfg.Abs { // as after Reset in a request: until the old deadline or a full new lifetime
+				ns.HasAbs = true
+				if t+AbsS < ns.AbsLo {
+					ns.AbsLo = t + AbsS
+				}
+				ns.AbsHi = t + AbsS
+			}
+		} else if !strings.HasSuffix(ns.Origin, "+"+kind) {
+			ns.Origin += "+" + kind
+		}
+		ns.savedAt(t, 0)
+		delete(m.dead, id)
+		m.live[id] = ns
+		return nil
+	}
+	switch op.Act {
+	case "getbyidset":
+		exp[op.K] = op.V
+	case "getbyiddel":
+		delete(exp, op.K)
+	case "getbyiddestroy":
+		m.kill(target, "destroy")
+		info.Outcome += " destroy"
+		return nil // what the destroyed object reads back is unspecified
+	case "getbyidregen":
+		info.Outcome += " regenerate"
+		if v := rotated("regenerate"); v != nil {
+			return v
+		}
+	case "getbyidreset":
+		info.Outcome += " reset"
+		exp = map[string]string{}
+		if v := rotated("reset"); v != nil {
+			return v
+		}
+	}
+	if k := diffKind(o.Post.Data, exp); k != "" {
+		return vio("data-mismatch kind="+k+" api=getbyid act="+op.Act, "the session obtained by GetByID does not hold the expected data after the operation", o.Post.Data, exp)
+	}
+	if op.Act == "getbyidset" || op.Act == "getbyiddel" {
+		s.Data = exp
+		s.savedAt(t, 0)
 	}
 	return nil
 }
@@ -565,8 +724,25 @@ func (w *world) judgeStorage(info *stepInfo) *viol {
 		if k := diffKind(a.Data, s.Data); k != "" {
 			return vio("storage-data-mismatch kind="+k+" storage="+w.cfg.Storage, "the stored data differ from the data last saved", a.Data, s.Data)
 		}
+		// the absolute deadline is kept inside the stored data (anchored state): what is stored is
+		// what every later request will be judged by
+		if s.HasAbs && s.Origin != "saved-after-destroy" {
+			if !a.HasAbs {
+				return vio("storage-abs-deadline-missing storage="+w.cfg.Storage, "the stored session has no absolute deadline although AbsoluteTimeout is configured", a.Data, map[string]int{"not_before": s.AbsLo - t, "not_after": s.AbsHi - t})
+			}
+			if a.Abs < s.AbsLo || a.Abs > s.AbsHi {
+				return vio("storage-abs-deadline-mismatch origin="+s.Origin+" storage="+w.cfg.Storage, "the absolute deadline stored with the session is not creation time + AbsoluteTimeout", a.Abs-t, map[string]int{"not_before": s.AbsLo - t, "not_after": s.AbsHi - t})
+			}
+		}
 		if w.inj != nil && a.Exp != s.Idle {
-			return vio("storage-ttl-mismatch", "the storage entry does not expire at last save + IdleTimeout", a.Exp-t, s.Idle-t)
+			if s.IdleAlt == 0 || a.Exp != s.IdleAlt {
+				return vio("storage-ttl-mismatch", "the storage entry does not expire at last save + idle timeout", a.Exp-t, s.Idle-t)
+			}
+			s.Idle = s.IdleAlt // unspecified which of the two: the model follows the implementation
+		}
+		if w.inj != nil && s.IdleAlt != 0 {
+			s.IdleAlt = 0
+			info.Unspec++
 		}
 	}
 	for _, id := range ids {
@@ -658,6 +834,12 @@ func (w *world) stateKeyOrder(order [2]int, pool string) string {
 	for _, id := range lids {
 		s := w.m.live[id]
 		r := fmt.Sprintf("%v idle=%d", sortedKV(s.Data), s.Idle-t)
+		if s.IdleAlt != 0 {
+			r += fmt.Sprintf("/%d", s.IdleAlt-t)
+		}
+		if s.Custom != 0 {
+			r += fmt.Sprintf(" own-idle=%d", s.Custom)
+		}
 		if s.HasAbs {
 			r += fmt.Sprintf(" abs=%d..%d", s.AbsLo-t, s.AbsHi-t)
 		}
